@@ -5,7 +5,7 @@
     the "already enabled" de-duplication by String(), rule{enable/disable} overrides, checks{enabled/disabled},
     Meta().States, AlwaysEnabled, locked blocks, tags. *)
 From Coq Require Import List String Ascii ZArith Bool.
-From PintV Require Import Common.Bytes Model.CommentsUnicode Model.Comments Model.Enable Proofs.C07_enable Proofs.C07_grammar.
+From PintV Require Import Common.Bytes Model.CommentsUnicode Model.Comments Model.Enable Proofs.C07_enable Proofs.C07_problems Proofs.C07_grammar.
 Import ListNotations.
 Open Scope string_scope.
 Open Scope list_scope.
@@ -40,6 +40,89 @@ Theorem C07_problems_exact : forall now (problem : Type) (run : prule -> entry -
   filter (fun pp => rule_keep m (fst pp)) (problems now problem run en dis cfg e prs).
 Proof. exact problems_exact. Qed.
 Print Assumptions C07_problems_exact.
+
+(** The property as written — "removes exactly the problems of that check on that rule" — with the shift of the
+    rule by the inserted comment line.  The checks are opaque: [run pr entry content] is any function ([content] =
+    the rule with its positions, the file, the other entries), [ins] moves the rule down by the inserted line,
+    [shift] moves a problem down by one line (both the identity for a trailing comment).  Two named hypotheses,
+    required only of the checks that are selected before and kept after:
+      [insensitive e e' pr]  the check answers the same on the entry with the extra comment,
+      [equivariant e pr]     on the moved rule it answers the same problems, moved.
+    Conclusion: problems(e', moved) = shift (filter (not targeted, or locked, or always-enabled) problems(e)).
+    Known NOT to satisfy [insensitive] (inspection of internal/checks): promql/series for the comments it reads
+    itself — `disable/snooze promql/series(<selector>)` and `rule/set promql/series ...`; those comments do not
+    change the selection (C07_untargeted_comment_selection below), what they change happens inside that check.
+    Every other check reads no rule comment.  The hypotheses are tested on the real binary by the relational
+    oracle (harness/C07/c07_oracle.go), not proved. *)
+Theorem C07_problems_exact_shift :
+  forall now (problem content : Type) (run : prule -> entry -> content -> list problem)
+         (ins : content -> content) (shift : problem -> problem) en dis cfg e c1 c2 m prs x,
+  NoDup (map cstr prs) -> e_comments e = c1 ++ c2 ->
+  let e' := with_comments e (c1 ++ mk_disable m :: c2) in
+  (forall pr, In pr (get_checks now en dis e cfg prs) -> rule_keep m pr = true -> insensitive problem content run e e' pr) ->
+  (forall pr, In pr (get_checks now en dis e cfg prs) -> rule_keep m pr = true -> equivariant problem content run ins shift e pr) ->
+  problems_of now problem content run en dis cfg e' (ins x) prs =
+  map (shift_pp problem shift) (filter (fun pp => rule_keep m (fst pp)) (problems_of now problem content run en dis cfg e x prs)).
+Proof. intros. now apply problems_exact_disable. Qed.
+Print Assumptions C07_problems_exact_shift.
+
+(** the same for a live snooze ... *)
+Theorem C07_problems_exact_snooze_shift :
+  forall now (problem content : Type) (run : prule -> entry -> content -> list problem)
+         (ins : content -> content) (shift : problem -> problem) en dis cfg e c1 c2 until m prs x,
+  NoDup (map cstr prs) -> e_comments e = c1 ++ c2 -> (now < until)%Z ->
+  let e' := with_comments e (c1 ++ mk_snooze until m :: c2) in
+  (forall pr, In pr (get_checks now en dis e cfg prs) -> rule_keep m pr = true -> insensitive problem content run e e' pr) ->
+  (forall pr, In pr (get_checks now en dis e cfg prs) -> rule_keep m pr = true -> equivariant problem content run ins shift e pr) ->
+  problems_of now problem content run en dis cfg e' (ins x) prs =
+  map (shift_pp problem shift) (filter (fun pp => rule_keep m (fst pp)) (problems_of now problem content run en dis cfg e x prs)).
+Proof. intros. now apply problems_exact_snooze_live. Qed.
+Print Assumptions C07_problems_exact_snooze_shift.
+
+(** ... and, without the NoDup premise, against the configuration with the targeted checks deleted (exact also when
+    two parsed rules share a String() and differ in locked/tags) *)
+Theorem C07_problems_exact_cfg :
+  forall now (problem content : Type) (run : prule -> entry -> content -> list problem)
+         (ins : content -> content) (shift : problem -> problem) en dis cfg e c1 c2 m prs x,
+  e_comments e = c1 ++ c2 ->
+  let e' := with_comments e (c1 ++ mk_disable m :: c2) in
+  (forall pr, In pr (get_checks now en dis e cfg (filter (rule_keep m) prs)) -> insensitive problem content run e e' pr) ->
+  (forall pr, In pr (get_checks now en dis e cfg (filter (rule_keep m) prs)) -> equivariant problem content run ins shift e pr) ->
+  problems_of now problem content run en dis cfg e' (ins x) prs =
+  map (shift_pp problem shift) (problems_of now problem content run en dis cfg e x (filter (rule_keep m) prs)).
+Proof. intros. now apply problems_exact_disable_cfg. Qed.
+Print Assumptions C07_problems_exact_cfg.
+
+(** Comments that are no disable/snooze of a configured check never change the selection: every other comment type
+    attached to the rule (`# pint rule/set ...`, `# pint rule/owner`, `# pint file/owner`, file/disable ... ) whatever
+    its value, and a disable/snooze whose match is no spelling of any configured check — in particular the partial
+    form `# pint disable promql/series(<selector>)`, which the series check interprets itself. *)
+Theorem C07_untargeted_comment_selection : forall now en dis cfg e c1 c2 c prs,
+  e_comments e = c1 ++ c2 ->
+  (c_type c <> DisableType /\ c_type c <> SnoozeType) \/
+  (exists m, (c = mk_disable m \/ exists u, c = mk_snooze u m) /\
+             forall pr, In pr prs -> targets m (pr_name pr) (ck_string (pr_check pr)) (pr_tags pr) = false) ->
+  get_checks now en dis (with_comments e (c1 ++ c :: c2)) cfg prs = get_checks now en dis e cfg prs.
+Proof.
+  intros now en dis cfg e c1 c2 c prs He H. apply untargeted_comment_selection; [exact He|].
+  destruct H as [[H1 H2]|(m & Hc & Hm)].
+  - now apply other_types_untargeting.
+  - destruct (unknown_match_untargeting now prs m Hm) as [U1 U2]. destruct Hc as [->|(u & ->)]; auto.
+Qed.
+Print Assumptions C07_untargeted_comment_selection.
+
+(** ... and then every problem stays, moved with the rule (under the two hypotheses, for all selected checks). *)
+Theorem C07_problems_untargeted :
+  forall now (problem content : Type) (run : prule -> entry -> content -> list problem)
+         (ins : content -> content) (shift : problem -> problem) en dis cfg e c1 c2 c prs x,
+  e_comments e = c1 ++ c2 -> untargeting now prs c ->
+  let e' := with_comments e (c1 ++ c :: c2) in
+  (forall pr, In pr (get_checks now en dis e cfg prs) -> insensitive problem content run e e' pr) ->
+  (forall pr, In pr (get_checks now en dis e cfg prs) -> equivariant problem content run ins shift e pr) ->
+  problems_of now problem content run en dis cfg e' (ins x) prs =
+  map (shift_pp problem shift) (problems_of now problem content run en dis cfg e x prs).
+Proof. intros. now apply problems_exact_untargeted. Qed.
+Print Assumptions C07_problems_untargeted.
 
 (** a snooze whose time is in the future does the same *)
 Theorem C07_snooze_live_exact : forall now en dis cfg e c1 c2 until m prs,
@@ -156,6 +239,21 @@ Example C07_nonvacuous :
   map pr_name (get_checks 10%Z [] [] (with_comments nv_e [mk_snooze 5%Z "promql/series"]) [] nv_prs) = ["rule/label"; "rule/label"; "promql/series"].
 Proof. vm_compute. repeat split. Qed.
 Print Assumptions C07_nonvacuous.
+
+(** the hypotheses of the lifting are satisfiable together with a non-trivial conclusion: checks that report one
+    problem at the rule's line; the disable of rule/label removes the unlocked rule/label problem and moves the rest *)
+Example C07_problems_nonvacuous :
+  let run := fun (pr : prule) (_ : entry) (line : Z) => [(pr_name pr, line)] in
+  let ins := fun line : Z => (line + 1)%Z in
+  let shift := fun p : string * Z => (fst p, (snd p + 1)%Z) in
+  let e' := with_comments nv_e [mk_disable "rule/label"] in
+  (forall pr, insensitive (string * Z) Z run nv_e e' pr) /\
+  (forall pr, equivariant (string * Z) Z run ins shift nv_e pr) /\
+  map snd (problems_of 0%Z (string * Z) Z run [] [] [] nv_e 7%Z nv_prs) =
+    [("rule/label", 7%Z); ("rule/label", 7%Z); ("promql/series", 7%Z)] /\
+  map snd (problems_of 0%Z (string * Z) Z run [] [] [] e' (ins 7%Z) nv_prs) = [("rule/label", 8%Z); ("promql/series", 8%Z)].
+Proof. cbv zeta. split; [intros pr x; reflexivity|]. split; [intros pr x; reflexivity|]. vm_compute. split; reflexivity. Qed.
+Print Assumptions C07_problems_nonvacuous.
 
 Example C07_grammar_nonvacuous :
   ok_value "promql/series(+prod)" /\ all_ascii "    expr: up " = true /\ no_hash "    expr: up " = true /\
